@@ -781,12 +781,12 @@ theorem Repr.meaning {c : CLru K V} {ids : List Id} (hr : Repr c ids) :
 /-- the executable check accepts every well-formed structure -/
 theorem Repr.wfCheck {c : CLru K V} {ids : List Id} (hr : Repr c ids) (keys : List K) :
     wfCheck c keys = true := by
-  obtain ⟨h1, h2, _, _, h5, h6, h7⟩ := hr.meaning
+  obtain ⟨h1, h2, h3, _, h5, h6, h7⟩ := hr.meaning
   unfold Lru.wfCheck
   rw [h1, h2]
   simp only [List.reverse_reverse, beq_self_eq_true, Bool.true_and, Bool.and_eq_true,
-    List.all_eq_true, beq_iff_eq]
-  refine ⟨⟨h5.symm, fun i hi => h6 i hi⟩, ?_⟩
+    List.all_eq_true, beq_iff_eq, decide_eq_true_eq]
+  refine ⟨⟨⟨⟨h5.symm, h3⟩, fun i hi => hr.fresh i hi⟩, fun i hi => h6 i hi⟩, ?_⟩
   intro k _
   cases hk : c.dict k with
   | none => rfl
